@@ -1689,6 +1689,16 @@ impl<'a, P> NlriEnumIter<'a, P> {
     }
 }
 
+impl<'a, P: Octets> NlriEnumIter<'a, P> {
+    /// Returns whether no octets are left to parse NLRI from.
+    ///
+    /// For an unsupported address family the iterator yields no items
+    /// whatever the attribute holds: this tells whether it holds anything.
+    pub(crate) fn is_empty(&self) -> bool {
+        self.parser.remaining() == 0
+    }
+}
+
 impl<'a, O, P> Iterator for NlriEnumIter<'a, P>
 where 
     O: Octets,
